@@ -512,14 +512,10 @@ func runC06(c *Ctx) {
 
 	c.Rule("R6.5", func() {
 		c.Floor("R6.5", 8)
-		fd, p := c.Decl("lintcmd", "(*Command).printDiagnostics")
-		lit, call := findSortComparator(p, fd.Body)
-		if lit == nil {
-			c.Undecided("printDiagnostics no longer sorts with a comparator literal")
-		}
+		rawChain, callPos := sortChainOf(c, "lintcmd", "(*Command).printDiagnostics")
 		elem := elemTypeOf(c)
 		chain := map[string]bool{}
-		for _, f := range expandLeaves(elem, comparatorChain(c, p, lit)) {
+		for _, f := range expandLeaves(elem, rawChain) {
 			chain[f] = true
 		}
 		// fields compared by equal()
@@ -568,14 +564,14 @@ func runC06(c *Ctx) {
 				top = f[:i]
 			}
 			if e, ok := table["print"][f]; ok {
-				c.CheckTrivial(key+f, call.Pos(), true, "exempt: %s", e.reason)
+				c.CheckTrivial(key+f, callPos, true, "exempt: %s", e.reason)
 				continue
 			}
 			if e, ok := table["print"][top]; ok {
-				c.CheckTrivial(key+f, call.Pos(), true, "exempt: %s", e.reason)
+				c.CheckTrivial(key+f, callPos, true, "exempt: %s", e.reason)
 				continue
 			}
-			c.Check(key+f, call.Pos(), chain[f], "field %s is %s but the sort comparator does not order by it: two problems that differ only there keep the order in which they were collected (goroutine/map order), so the output is not byte-identical across runs", f, need[f])
+			c.Check(key+f, callPos, chain[f], "field %s is %s but the sort comparator does not order by it: two problems that differ only there keep the order in which they were collected (goroutine/map order), so the output is not byte-identical across runs", f, need[f])
 		}
 	})
 	// R6.6: nothing is shared between packages of one run except what is keyed by
